@@ -186,6 +186,7 @@ func (mc *MetricsCollector) UpdateBackendHealth(backendName string, isHealthy bo
 
 // UpdateBackendConnections updates the active connections count for a backend
 func (mc *MetricsCollector) UpdateBackendConnections(backendName string, connections int32) {
+	vgate("mx:conn")
 	mc.metrics.mutex.Lock()
 	defer mc.metrics.mutex.Unlock()
 
